@@ -350,7 +350,7 @@ fn write_sync_elem(w: &mut Writer<Vec<u8>>, calls: &[Call]) -> Result<(), String
 fn write_async_elem(w: &mut Writer<Vec<u8>>, calls: &[Call]) -> Result<(), String> {
     for c in calls {
         match c {
-            Call::Elem { name, attrs, use_with_attributes, content } if !matches!(content, Content::Inner(_)) => {
+            Call::Elem { name, attrs, use_with_attributes, content } => {
                 let mut ew = w.create_element(name.as_str());
                 if *use_with_attributes {
                     ew = ew.with_attributes(attrs.iter().map(|(k, v)| (k.as_str(), v.as_str())));
@@ -364,7 +364,16 @@ fn write_async_elem(w: &mut Writer<Vec<u8>>, calls: &[Call]) -> Result<(), Strin
                     Content::Text(t) => block_on(ew.write_text_content_async(BytesText::new(t)), 1000)?.0.map(|_| ()).map_err(io_err)?,
                     Content::CData(t) => block_on(ew.write_cdata_content_async(BytesCData::new(t.as_str())), 1000)?.0.map(|_| ()).map_err(io_err)?,
                     Content::PI(t) => block_on(ew.write_pi_content_async(BytesPI::new(t.as_str())), 1000)?.0.map(|_| ()).map_err(io_err)?,
-                    Content::Inner(_) => unreachable!(),
+                    Content::Inner(inner) => {
+                        let mut res: Result<(), String> = Ok(());
+                        let rr = &mut res;
+                        let fut = ew.write_inner_content_async(|w| async move {
+                            *rr = write_async_elem(&mut *w, inner);
+                            Ok::<_, quick_xml::Error>(w)
+                        });
+                        block_on(fut, 1_000_000)?.0.map(|_| ()).map_err(io_err)?;
+                        res?;
+                    }
                 }
             }
             Call::Bom => {}
